@@ -214,7 +214,7 @@ def value_specs(max_k, allow_edge=True):
 def histories_1d(draw, tier="quick"):
     w = draw(st.sampled_from(WIDTHS))
     align = draw(st.sampled_from([True, True, False]))
-    shift = draw(st.sampled_from([None, None, 0.5, 0.25, 0.1])) if align else None
+    shift = draw(st.sampled_from([None, None, 0.5, 0.25, 0.1, 2.5, 1.25, 3.0, -1.5])) if align else None  # also |shift| >= one width
     near = value_specs(draw(st.sampled_from([3, 30, 300])))
     far = value_specs(draw(st.sampled_from([300, 1200])), allow_edge=False)
     val = st.one_of(near, near, near, far)
